@@ -368,3 +368,30 @@ def symbolic_state_after(func: ast.AST, selfname: str = "self"):
             break
         return None
     return attrs, env
+
+
+def _ends(stmts) -> bool:
+    if not stmts:
+        return False
+    last = stmts[-1]
+    if isinstance(last, (ast.Return, ast.Raise, ast.Continue, ast.Break)):
+        return True
+    if isinstance(last, ast.If) and last.orelse:
+        return _ends(last.body) and _ends(last.orelse)
+    return False
+
+
+def linear_body(node) -> list:
+    """The main line of a function in the comparison normal form: an early exit `if c: ...return` is followed, in the `else`, by the rest of the function
+    (bnpsa.normalize); this lists the statements as a reader sees them: the early-exit `if`, then the statements of its else branch, and so on."""
+    out = []
+    body = getattr(node, "body", node)
+    if isinstance(node, ast.ClassDef) or not isinstance(body, list):
+        return list(body) if isinstance(body, list) else []
+    todo = list(body)
+    while todo:
+        s = todo.pop(0)
+        out.append(s)
+        if isinstance(s, ast.If) and s.orelse and _ends(s.body) and not (len(s.orelse) == 1 and isinstance(s.orelse[0], ast.If) and False):
+            todo = list(s.orelse) + todo
+    return out
